@@ -144,6 +144,34 @@ theorem atomLexIn_flt (c : String) (h : fltTextOK c.toList = true) (b : Bool) : 
   rw [← hs] at hl
   exact atomLexIn_num_of_text _ _ (atomText_flt c) hl d (t ++ '.' :: fp) (by rw [hs, hdt]; simp) hd b
 
+/-- the text of a float is `-` and then what `t` says (a negative float built in code) -/
+def fltNegText : List Char → Option (List Char)
+  | '-' :: t => some t
+  | _ => none
+
+/-- negative floats (built in code): two tokens, like negative integers -/
+theorem atomLexIn_flt_neg (c : String) (t : List Char) (hc : fltNegText c.toList = some t)
+    (h : fltTextOK t = true) (b : Bool) : AtomLexIn b (.num (.flt c)) := by
+  have hct : c.toList = '-' :: t := by
+    unfold fltNegText at hc
+    split at hc
+    · rename_i t' heq; simp at hc; rw [heq, hc]
+    · simp at hc
+  have ht : atomText (.num (.flt c)) = '-' :: t := by rw [atomText_flt, hct]
+  obtain ⟨ip, fp, hs, hi, hf⟩ := fltTextOK_split h
+  obtain ⟨hl, _⟩ := lexes_float ip fp hi hf
+  rw [← hs] at hl
+  refine ⟨?_, ⟨'-', _, ht, by decide, by decide, by decide⟩⟩
+  have hr : atomRaws (.num (.flt c)) = [.op .TokenMinus, .number (String.ofList t)] := by
+    simp [atomRaws, ht]
+  rw [hr, ht]
+  obtain ⟨k, hk, hk2⟩ := hl false
+  refine ⟨k + 1, by simp; omega, ?_⟩
+  intro f rest acc hrest
+  have := hk2 f rest (.op .TokenMinus :: acc) hrest
+  rw [← Nat.add_assoc, List.cons_append, lex_minus, this]
+  simp
+
 /-! ### durations -/
 
 /-- digits and one of the units the lexer knows -/
@@ -234,13 +262,52 @@ theorem identOK_of_b (s : String) (h : identOKb s = true) : identOK s := by
     exact ⟨c, cs, heq, h.1.1, h.1.2, h.2⟩
   · simp at h
 
+theorem kw_lambda : keywordTok "lambda" = some "TokenLambda" := by decide
+
+/-- `lambda` not followed by `:` is an ordinary identifier for the lexer -/
+theorem identLex_lambda : IdentLex "lambda" := by
+  have ht : ("lambda" : String).toList = ['l', 'a', 'm', 'b', 'd', 'a'] := by decide
+  refine ⟨?_, ⟨'l', ['a', 'm', 'b', 'd', 'a'], ht, by decide, by decide, by decide, by decide⟩⟩
+  refine lexes_of_false 'l' _ ht (by unfold headFalls; decide) 1 (by rw [ht]; decide) ?_
+  intro f rest acc hr
+  rw [ht]
+  rcases nextOK_cases hr with rfl | ⟨c, t, rfl, hc | hc | hc⟩ <;> try subst hc
+  all_goals
+    simp [lexLoop, isDigit, isLetter, isIdentCh, List.takeWhile, List.dropWhile, kw_lambda, isAscii]
+
+theorem identLexCall_lambda : IdentLexCall "lambda" := by
+  have ht : ("lambda" : String).toList = ['l', 'a', 'm', 'b', 'd', 'a'] := by decide
+  refine ⟨?_, ⟨'l', ['a', 'm', 'b', 'd', 'a'], ht, by decide, by decide, by decide, by decide⟩⟩
+  intro b
+  cases b with
+  | false =>
+    refine ⟨1, by rw [ht]; decide, ?_⟩
+    intro f R acc
+    rw [ht]
+    simp [lexLoop, isDigit, isLetter, isIdentCh, List.takeWhile, List.dropWhile, kw_lambda, isAscii]
+  | true =>
+    refine ⟨2, by rw [ht]; decide, ?_⟩
+    intro f R acc
+    rw [ht]
+    simp [lexLoop, dropSpace, isSpace, isDigit, isLetter, isIdentCh, List.takeWhile, List.dropWhile, kw_lambda,
+      isAscii]
+
+/-- identifiers the lexer reads back: `identOK`, or the keyword `lambda` (an identifier unless `:` follows) -/
+def identOKb' (s : String) : Bool := s == "lambda" || identOKb s
+
+theorem identLex_of_b' (s : String) (h : identOKb' s = true) : IdentLex s ∧ IdentLexCall s := by
+  simp only [identOKb', Bool.or_eq_true, beq_iff_eq] at h
+  rcases h with rfl | h
+  · exact ⟨identLex_lambda, identLexCall_lambda⟩
+  · exact ⟨identLex_of_ok s (identOK_of_b s h), identLexCall_of_ok s (identOK_of_b s h)⟩
+
 /-- the per-token condition of an operand read in state `b`, decidable -/
 def atomLexOK (b : Bool) : Atom → Bool
   | .bool _ => true
   | .ref s => !endsWithBackslash s.toList
   | .str l t => if useTriple l.toList t then tripleSafe 3 l.toList else !endsWithBackslash l.toList
   | .num (.int base v) => decide (base = 10) || (decide (base = 8) && decide (0 ≤ v))
-  | .num (.flt c) => fltTextOK c.toList
+  | .num (.flt c) => fltTextOK c.toList || ((fltNegText c.toList).map fltTextOK).getD false
   | .dur ns lit => if lit.isEmpty then decide (0 ≤ ns) && decide (ns % 1000 = 0) else durTextOK lit.toList
   | .rx re lit => !b && rxHeadOK (regexLiteral re lit).toList && rxScanOK (regexLiteral re lit).toList
   | .star => false
@@ -271,7 +338,13 @@ theorem atomLexOK_sound (b : Bool) (a : Atom) (h : atomLexOK b a = true) : AtomL
       · cases v with
         | ofNat n => exact atomLexIn_oct n b
         | negSucc n => exact absurd hv (by simp)
-    | flt c => exact atomLexIn_flt c (by simpa [atomLexOK] using h) b
+    | flt c =>
+      simp only [atomLexOK, Bool.or_eq_true] at h
+      rcases h with h | h
+      · exact atomLexIn_flt c h b
+      · cases hn : fltNegText c.toList with
+        | none => rw [hn] at h; simp at h
+        | some t => rw [hn] at h; exact atomLexIn_flt_neg c t hn (by simpa using h) b
   | dur ns lit =>
     simp only [atomLexOK] at h
     split at h
@@ -299,14 +372,14 @@ mutual
 lexes as itself -/
 def lexOK : Expr → Bool → Bool → Bool
   | .lit a, _, b => atomLexOK b a
-  | .id s, _, _ => identOKb s
+  | .id s, _, _ => identOKb' s
   | .un _ e, _, _ => lexOK e true false
   | .bin o l r p, extra, b =>
     lexOK l (needsParens l o false) (if p || extra then false else b) &&
     (if isRxOp o && (rxLitOf r).isSome then rxScanOK ((rxLitOf r).getD [])
      else lexOK r (needsParens r o true) (opState o) &&
        (!isRxOp o || noSlashB (fmtCharsP r (needsParens r o true))))
-  | .call f args, _, _ => identOKb f && lexOKArgs args
+  | .call f args, _, _ => identOKb' f && lexOKArgs args
 def lexOKArgs : List Expr → Bool
   | [] => true
   | a :: rest => (isStar a || lexOK a false false) && lexOKArgs rest
@@ -319,7 +392,7 @@ theorem lexOK_sound : (e : Expr) → ∀ extra b, lexOK e extra b = true → Lex
     exact atomLexOK_sound b a (by simpa [lexOK] using h)
   | .id s, _, _, h => by
     simp only [LexWFs]
-    exact identLex_of_ok s (identOK_of_b s (by simpa [lexOK] using h))
+    exact (identLex_of_b' s (by simpa [lexOK] using h)).1
   | .un _ e, _, _, h => by
     simp only [LexWFs]
     exact lexOK_sound e true false (by simpa [lexOK] using h)
@@ -343,7 +416,7 @@ theorem lexOK_sound : (e : Expr) → ∀ extra b, lexOK e extra b = true → Lex
   | .call f args, _, _, h => by
     simp only [lexOK, Bool.and_eq_true] at h
     simp only [LexWFs]
-    exact ⟨identLexCall_of_ok f (identOK_of_b f h.1), lexOKArgs_sound args h.2⟩
+    exact ⟨(identLex_of_b' f h.1).2, lexOKArgs_sound args h.2⟩
 theorem lexOKArgs_sound : (args : List Expr) → lexOKArgs args = true → LexWFArgs args
   | [], _ => by simp [LexWFArgs]
   | a :: rest, h => by
